@@ -30,6 +30,9 @@ func runCase(c *Case) []item {
 
 func prefix(c *Case, k int) *Case { return &Case{Setup: c.Setup, Txs: append([]TxSpec{}, c.Txs[:k+1]...)} }
 
+// classes already reported (and shrunk) in this run
+var reported = map[string]bool{}
+
 func property(prop string, o *Obs) *Failure {
 	if prop == "C07" {
 		return o.PropertyC07()
@@ -130,14 +133,22 @@ func RunCases(ctx *hx.Ctx, prop string, cases []*Case) {
 		ctx.Cov.Case(string(canon), nontrivial, nil)
 		cov(ctx, o)
 		if f := property(prop, o); f != nil {
-			sc := shrink(ctx, prop, prefix(it.c, it.k), f.Class, true)
-			ctx.Violation(f.Class, f.Summary, sc, true)
+			// one report (and one shrink) per class per run: hx keeps the first
+			if !reported[f.Class] {
+				reported[f.Class] = true
+				sc := shrink(ctx, prop, prefix(it.c, it.k), f.Class, true)
+				ctx.Violation(f.Class, f.Summary, sc, true)
+			}
 			continue
 		}
 		a := o.ParseAnswer(ans[i])
 		if d := o.Correspond(a, true); len(d) > 0 {
 			// the model and the implementation disagree although the property's own predicates hold on this case:
 			// look for a direct failure on shrunk variants, else report the correspondence that no longer checks
+			if reported["correspondence:"+d[0].Field] {
+				continue
+			}
+			reported["correspondence:"+d[0].Field] = true
 			sc := shrink(ctx, prop, prefix(it.c, it.k), d[0].Field, false)
 			if f, _ := evalCase(ctx, prop, sc); f != nil {
 				ctx.Violation(f.Class, f.Summary, sc, true)
